@@ -30,7 +30,10 @@ pub struct Cmd { pub args: Vec<OsString>, pub env: Vec<(String, String)>, pub st
     /// environment variables whose values are arbitrary bytes (not necessarily UTF-8)
     pub env_os: Vec<(String, Vec<u8>)>,
     /// named pipes to create in the working directory before the start, each fed with data in pieces (name, data, piece sizes)
-    pub fifos: Vec<(String, Vec<u8>, Vec<usize>)> }
+    pub fifos: Vec<(String, Vec<u8>, Vec<usize>)>,
+    /// run the tool on a pseudo-terminal (through script(1)) and type these lines at its prompts; stdout and stderr of the tool
+    /// then both go to the terminal and are returned together in `stdout`
+    pub pty_lines: Option<Vec<String>> }
 #[derive(Clone, Debug)]
 pub struct Run { pub code: Option<i32>, pub signal: Option<i32>, pub stdout: Vec<u8>, pub stderr: Vec<u8>, pub timed_out: bool }
 impl Run {
@@ -50,10 +53,16 @@ pub fn run(c: &Cmd) -> Run {
     let io = scratch_root().join(format!("kverif-io-{}-{}", std::process::id(), SEQ.fetch_add(1, Ordering::Relaxed)));
     let _ = std::fs::create_dir_all(&io);
     let mut cmd = match c.fsize_blocks {
+        None if c.pty_lines.is_some() => {
+            // script -qec '<quoted command line>' /dev/null : the tool gets a controlling terminal, -e hands its exit status back
+            let q = |s: &std::ffi::OsStr| format!("'{}'", s.to_string_lossy().replace('\'', "'\\''"));
+            let mut line = q(kestrel_bin().as_os_str()); for a in &c.args { line.push(' '); line.push_str(&q(a)); }
+            let mut s = Command::new("/usr/bin/script"); s.arg("-qec").arg(line).arg("/dev/null"); s }
         None => Command::new(kestrel_bin()),
         Some(b) => { let mut s = Command::new("/bin/sh"); s.arg("-c").arg(format!("trap '' XFSZ; ulimit -f {}; exec \"$0\" \"$@\"", b)).arg(kestrel_bin()); s }
     };
-    cmd.args(&c.args).env_clear().current_dir(&c.cwd);
+    if c.pty_lines.is_none() { cmd.args(&c.args); }
+    cmd.env_clear().current_dir(&c.cwd).env("TERM", "dumb").env("SHELL", "/bin/sh");
     for (k, v) in &c.env { cmd.env(k, v); }
     for (k, v) in &c.env_os { cmd.env(k, <std::ffi::OsString as std::os::unix::ffi::OsStringExt>::from_vec(v.clone())); }
     let mut fifo_feeders = Vec::new();
@@ -67,12 +76,13 @@ pub fn run(c: &Cmd) -> Run {
             unsafe { let fd = std::os::fd::AsRawFd::as_raw_fd(&f); let fl = libc::fcntl(fd, libc::F_GETFL); libc::fcntl(fd, libc::F_SETFL, fl & !libc::O_NONBLOCK); }
             let mut off = 0; let mut i = 0; while off < data.len() { let n = sizes.get(i).copied().unwrap_or(usize::MAX).max(1).min(data.len() - off); if f.write_all(&data[off..off + n]).is_err() { break; } off += n; i += 1; if i < 6 { std::thread::sleep(std::time::Duration::from_millis(40)); } } })));
     }
-    match &c.stdin {
+    if let Some(lines) = &c.pty_lines { let p = io.join("typed"); let _ = std::fs::write(&p, lines.iter().map(|l| format!("{}\n", l)).collect::<String>()); cmd.stdin(std::fs::File::open(&p).map(Stdio::from).unwrap_or_else(|_| Stdio::null())); }
+    else { match &c.stdin {
         In::Null | In::Closed => { cmd.stdin(Stdio::null()); }
         In::Bytes(b) => { let p = io.join("stdin"); let _ = std::fs::write(&p, b); cmd.stdin(std::fs::File::open(&p).map(Stdio::from).unwrap_or_else(|_| Stdio::null())); }
         In::File(p) => { cmd.stdin(std::fs::File::open(p).map(Stdio::from).unwrap_or_else(|_| Stdio::null())); }
         In::Pipe(..) => { cmd.stdin(Stdio::piped()); }
-    }
+    } }
     let mut closed_reader = None;
     match &c.stdout {
         Out::Capture => { cmd.stdout(std::fs::File::create(io.join("stdout")).map(Stdio::from).unwrap_or_else(|_| Stdio::null())); }
@@ -113,7 +123,7 @@ impl Sandbox {
     pub fn path(&self, name: &str) -> PathBuf { self.dir.join(name) }
     pub fn write(&self, name: &str, data: &[u8]) -> PathBuf { let p = self.path(name); std::fs::write(&p, data).expect("write temp file"); p }
     pub fn read(&self, name: &str) -> Option<Vec<u8>> { std::fs::read(self.path(name)).ok() }
-    pub fn cmd(&self, a: &[&str]) -> Cmd { Cmd { args: args(a), env: vec![], stdin: In::Null, stdout: Out::Capture, cwd: self.dir.clone(), timeout_ms: 60_000, fsize_blocks: None, env_os: vec![], fifos: vec![] } }
+    pub fn cmd(&self, a: &[&str]) -> Cmd { Cmd { args: args(a), env: vec![], stdin: In::Null, stdout: Out::Capture, cwd: self.dir.clone(), timeout_ms: 60_000, fsize_blocks: None, env_os: vec![], fifos: vec![], pty_lines: None } }
 }
 impl Drop for Sandbox { fn drop(&mut self) { let _ = std::fs::remove_dir_all(&self.dir); } }
 impl Cmd {
@@ -142,6 +152,7 @@ pub fn keyring_text(entries: &[(&CliIdent, bool)]) -> String {
     }
     s
 }
+pub fn pty_available() -> bool { Path::new("/usr/bin/script").exists() }
 pub fn exists(p: &Path) -> bool { std::fs::symlink_metadata(p).is_ok() }
 
 static WATCHED: std::sync::Mutex<Vec<(u32, std::time::Instant, bool)>> = std::sync::Mutex::new(Vec::new());
